@@ -49,9 +49,9 @@ type collWriter struct {
 func (c *collected) ObjectPutInit(_ context.Context, hdr object.Object, _ user.Signer, _ client.PrmObjectPutInit) (client.ObjectWriter, error) {
 	return &collWriter{c: c, hdr: hdr}, nil
 }
-func (w *collWriter) Write(p []byte) (int, error)            { return w.buf.Write(p) }
-func (w *collWriter) ReadFrom(r io.Reader) (int64, error)    { return w.buf.ReadFrom(r) }
-func (w *collWriter) GetResult() (res client.ResObjectPut)   { return }
+func (w *collWriter) Write(p []byte) (int, error)          { return w.buf.Write(p) }
+func (w *collWriter) ReadFrom(r io.Reader) (int64, error)  { return w.buf.ReadFrom(r) }
+func (w *collWriter) GetResult() (res client.ResObjectPut) { return }
 func (w *collWriter) Close() error {
 	o := w.hdr
 	o.SetPayload(slices.Clone(w.buf.Bytes()))
@@ -101,9 +101,9 @@ type readRec struct {
 
 type result struct {
 	Req     rangeReq  `json:"req"`
-	Status  string    `json:"status"`   // ok | oor | err | panic
+	Status  string    `json:"status"` // ok | oor | err | panic
 	GotLen  int       `json:"got_len"`
-	RefOOR  bool      `json:"ref_oor"`  // harness reference: range unsatisfiable
+	RefOOR  bool      `json:"ref_oor"` // harness reference: range unsatisfiable
 	RefOff  uint64    `json:"ref_off"`
 	RefLen  uint64    `json:"ref_len"`
 	BytesOK bool      `json:"bytes_ok"` // returned bytes == payload[ref_off : ref_off+ref_len]
